@@ -147,6 +147,32 @@ def binding_obligation():
     return lambda pkg: run_obligation(pkg, fn)
 
 
+def prebound_obligation():
+    """An edge that arrives already attached to vertex objects (e.g. re-used from another graph) is re-bound to *this* graph's
+    vertices; a pre-attached vertex does not make an unknown id acceptable."""
+    def fn(it):
+        ids = [Poly.var("ida"), Poly.var("idb")]
+        verts = [it.construct("Vertex", [ids[k], sym_pose("PoseR2", "p%d" % k)]) for k in range(2)]
+        foreign = [it.construct("Vertex", [ids[k], sym_pose("PoseR2", "f%d" % k)]) for k in range(2)]
+        edge = Obj("BaseEdge", vertex_ids=list(ids), vertices=list(foreign), information=None, estimate=None)
+        edge.stubs["is_valid"] = lambda: True
+        it.construct("Graph", [[edge], verts])
+        bound = edge.fields.get("vertices")
+        for k in (0, 1):
+            if not isinstance(bound, list) or len(bound) != 2 or bound[k] is not verts[k]:
+                raise ObFail("an edge that was already attached to other vertex objects with the same ids stays attached to them "
+                             "instead of being bound to the graph's own vertices")
+        stray = it.construct("Vertex", [Poly.var("unknown"), sym_pose("PoseR2", "s")])
+        edge2 = Obj("BaseEdge", vertex_ids=[ids[0], Poly.var("unknown")], vertices=[verts[0], stray], information=None, estimate=None)
+        edge2.stubs["is_valid"] = lambda: True
+        try:
+            it.construct("Graph", [[edge2], verts])
+        except PathRaise:
+            return dict(rebinding=True)
+        raise ObFail("an edge naming an id that no vertex of the graph has is accepted because it arrived pre-attached to a vertex object")
+    return lambda pkg: _run_ob(pkg, fn)
+
+
 def unknown_id_obligation():
     def fn(it):
         ids = [Poly.var("ida"), Poly.var("idb")]
@@ -266,6 +292,7 @@ def run(run_, pkg, tier):
     where = "%s:%d" % (gfn._gs_module, gfn.lineno)
     btasks = [("C18-B1/Graph._initialize/binding", "C18-B1-bind-by-id", binding_obligation(), where),
               ("C18-B1/Graph._initialize/unknown-id-raises", "C18-B1-bind-by-id", unknown_id_obligation(), where),
+              ("C18-B1/Graph._initialize/prebound-edges-rebound", "C18-B1-bind-by-id", prebound_obligation(), where),
               ("C18-B1/Graph._initialize/invalid-edge-raises[False]", "C18-B1-validity-asserted", invalid_edge_obligation(False), where),
               ("C18-B1/Graph._initialize/invalid-edge-raises[None]", "C18-B1-validity-asserted", invalid_edge_obligation(None), where)]
     btasks = [t for t in btasks if run_.wants(t[0])]
